@@ -1,6 +1,7 @@
 """R-LAYOUT: emission / consumption sequences and their comparison with the format table.
 R-FLOW (light): origin() = provenance descriptor of an expression inside one function."""
 from __future__ import annotations
+import re
 from ..astq import Node, up, walk_no_nested_fn, strip, strip_cast, resolve_local, loc, children
 from .. import astq
 
@@ -215,6 +216,11 @@ def int_value(n, ast=None, file=None, depth=0):
         return {"+": a + b, "*": a * b, "-": a - b}[n["op"]]
     if n.k == "cast":
         return int_value(n["e"], ast, file, depth + 1)
+    if n.k == "call" and not n["args"] and isinstance(n["func"], Node) and n["func"].k == "path" and n["func"]["path"].split("::")[-1] == "size_of":
+        g = n["func"].get("generics") or []
+        if len(g) == 1:
+            return {"u8": 1, "i8": 1, "u16": 2, "i16": 2, "u32": 4, "i32": 4, "f32": 4, "u64": 8, "i64": 8, "f64": 8, "u128": 16, "i128": 16}.get(g[0].replace(" ", ""))
+        return None
     if n.k == "path" and ast is not None:
         name = n["path"].split("::")[-1]
         for (f, nm), c in ast.consts.items():
@@ -521,6 +527,8 @@ def _bound_name(n):
     p = n.parent
     child = n
     while p is not None and isinstance(p, Node):
+        if p.k in ("tuple", "struct", "arm") or (p.k == "expr_stmt" and not p["semi"]):
+            return "@%d" % n.order          # yielded in place (tuple element, struct field, tail expression): a synthetic name
         if p.k == "let":
             if p["pat"].k == "p_ident" and child.pkey == "init":
                 return p["pat"]["name"]
@@ -534,6 +542,26 @@ def _bound_name(n):
             continue
         return None
     return None
+
+
+def yielded_name(e):
+    """name of a yielded element: the variable, or the synthetic name `_bound_name` gives a read that is yielded in place"""
+    s_ = e
+    while isinstance(s_, Node):
+        t = strip(s_)
+        if t.k in ("cast", "try"):
+            s_ = t["e"]
+        elif t.k == "call" and isinstance(t["func"], Node) and t["func"].k == "path" and t["func"]["path"] in ("u64::from", "f64::from", "u32::from", "usize::from") and len(t["args"]) == 1:
+            s_ = t["args"][0]
+        else:
+            s_ = t
+            break
+    if isinstance(s_, Node):
+        if s_.k == "mcall" and (s_["method"] in GET_W or s_["method"] in READ_W):
+            return "@%d" % s_.order
+        if s_.k == "call" and isinstance(s_["func"], Node) and s_["func"].k == "path" and re.search(r"::from_(be|le|ne)_bytes$", s_["func"]["path"]):
+            return "@%d" % s_.order
+    return up(strip(e))
 
 
 def from_bytes_reads(root):
